@@ -8,3 +8,5 @@ for p in "$@"; do for seed in 1 2; do
   VERIF_SEED=$seed tools/bv check $p --tier quick 2>&1 | grep -E "VIOLATION|no longer checks|failing input|^\[bv\]" | cut -c1-330
 done; done
 cd /repo && git checkout -q -- . 
+# leave a harness built against the clean tree behind (protorun does not rebuild on its own)
+cd /verif/harness && cargo build --offline >/dev/null 2>&1
